@@ -17,6 +17,8 @@ def main():
     if len(sys.argv) < 3:
         print("usage: check <Cxx> <quick|thorough> | check --replay <file>")
         return 2
+    if sys.argv[1] == "--replay":
+        return replay(sys.argv[2])
     pid, tier = sys.argv[1], sys.argv[2]
     if tier not in ("quick", "thorough"):
         print("tier must be quick or thorough")
@@ -52,6 +54,41 @@ def main():
     except Exception:
         run.broken_obligation("check-crashed", traceback.format_exc()[-3000:])
     return run.finish()
+
+
+def replay(path):
+    """Re-run the (deterministic) check that wrote this replay file — same property, tier and seed — on the current
+    tree and report whether the recorded violation (its signature / the obligation that no longer checked) is there
+    again. Exit 1 and a VIOLATION line if it is, exit 0 if it is gone."""
+    import re, subprocess
+    rp = json.load(open(path))
+    pid = rp["property"]
+    m = re.match(r"(C\d\d)_(quick|thorough)_(\d+)_", os.path.basename(path))
+    tier = rp.get("tier") or (m.group(2) if m else "quick")
+    seed = str(rp.get("seed") or (m.group(3) if m else 1))
+    want = [rp["signature"]] if "signature" in rp else [x["name"] for x in rp.get("no_longer_checks", [])]
+    env = dict(os.environ, VERIF_SEED=seed, CPF_REPLAY_KEEP="1")
+    if rp.get("depth") == "quick":
+        env["CPF_NO_ADAPTIVE"] = "1"
+    p = subprocess.run([sys.executable, os.path.abspath(__file__), pid, tier], env=env, stdout=subprocess.PIPE, stderr=subprocess.STDOUT, text=True)
+    again = []
+    for line in p.stdout.splitlines():
+        mm = re.match(r"VIOLATION property=%s replay=(\S+)" % pid, line)
+        if not mm:
+            continue
+        try:
+            r2 = json.load(open(mm.group(1)))
+        except Exception:
+            continue
+        got = [r2["signature"]] if "signature" in r2 else [x["name"] for x in r2.get("no_longer_checks", [])]
+        if set(got) & set(want):
+            again.append((mm.group(1), line))
+    if again:
+        print("replay of %s: the recorded violation is reproduced on the current tree (%s)" % (path, ", ".join(want)[:200]))
+        print(again[0][1])
+        return 1
+    print("replay of %s: not reproduced on the current tree (%s); the check run ended with rc=%d" % (path, ", ".join(want)[:200], p.returncode))
+    return 0
 
 
 if __name__ == "__main__":
